@@ -917,6 +917,59 @@ def match_F6(f):
 
 
 # ------------------------------------------------------------------ C19
+def underpromo_check_fens(rnd, n):
+    """a promotion-capture whose KNIGHT promotion gives check while another piece of the mover hangs: the under-promotion is then the
+    best capture (the checked side may only stand pat or answer the check), so a capture tree that leaves non-queen promotions out has
+    a different value. Pawn on the seventh, a capturable piece diagonally in front of it, the enemy king a knight's move from that
+    square, the mover's queen attacked by an enemy knight. Both colours. (Fourteenth round, k1.)"""
+    out = []
+    kn = [(1, 2), (2, 1), (-1, 2), (-2, 1), (1, -2), (2, -1), (-1, -2), (-2, -1)]
+    tries = 0
+    while len(out) < 2 * n and tries < 200 * n:
+        tries += 1
+        board = {}
+        f = rnd.randrange(8)
+        tf = f + rnd.choice([-1, 1])
+        if not 0 <= tf < 8:
+            continue
+        board[(6, f)] = "P"
+        board[(7, tf)] = rnd.choice("rrnbq")
+        ks = [(7 + dr, tf + df) for dr, df in kn if 0 <= 7 + dr < 8 and 0 <= tf + df < 8 and (7 + dr, tf + df) not in board]
+        if not ks:
+            continue
+        bk = rnd.choice(ks)
+        board[bk] = "k"
+        free = [(r, c) for r in range(0, 6) for c in range(8) if (r, c) not in board and max(abs(r - bk[0]), abs(c - bk[1])) > 1]
+        q = rnd.choice(free)
+        ns = [(q[0] + dr, q[1] + df) for dr, df in kn if 0 <= q[0] + dr < 8 and 0 <= q[1] + df < 8 and (q[0] + dr, q[1] + df) not in board]
+        if not ns:
+            continue
+        board[q] = rnd.choice("QQR")
+        board[rnd.choice(ns)] = "n"
+        free = [x for x in free if x not in board and max(abs(x[0] - bk[0]), abs(x[1] - bk[1])) > 1]
+        if not free:
+            continue
+        board[rnd.choice(free)] = "K"
+        for _ in range(rnd.randrange(0, 3)):            # a little noise that cannot move into the picture much: pawns
+            x = (rnd.randrange(1, 6), rnd.randrange(8))
+            if x not in board:
+                board[x] = rnd.choice("Pp")
+        for flip in (False, True):
+            rows = []
+            for r in range(7, -1, -1):
+                row, gap = "", 0
+                for c in range(8):
+                    ch = board.get((7 - r, c) if flip else (r, c))
+                    if ch is None:
+                        gap += 1
+                    else:
+                        row += (str(gap) if gap else "") + (ch.swapcase() if flip else ch)
+                        gap = 0
+                rows.append(row + (str(gap) if gap else ""))
+            out.append("/".join(rows) + (" b" if flip else " w") + " - - 0 1")
+    return out
+
+
 def capture_rich_fens(rnd, n):
     """positions with very many legal captures: pawns on the seventh between pieces on the eighth (every capture counts four times, once
     per promotion piece), plus a few attackers and targets elsewhere; both colours"""
@@ -982,6 +1035,10 @@ def run_C19(res):
     npro = 150 * res.escalate if res.tier == "quick" else 1500
     promo = [l for l in run_driver([f"gpattern {res.seed + 31} 2 {npro} 0", f"gpattern {res.seed + 32} 2 {npro // 3} 1"]) if l and l != "bad-op"]
     promo = list(dict.fromkeys(promo))
+    upc = [l for l in run_driver(["feninw " + f for f in underpromo_check_fens(rnd, 40 * res.escalate if res.tier == "quick" else 600)])
+           if l not in ("PANIC", "bad-op") and len(l.split()) > 10]
+    res.count("underpromotion_with_check_positions", len(upc))
+    promo = upc + promo
     # capture-rich nodes (more than 20 / 32 / 40 legal captures): keep those the generator likes best
     rich = [l for l in run_driver(["feninw " + f for f in capture_rich_fens(rnd, 3000 * res.escalate if res.tier == "quick" else 40000)])
             if l not in ("PANIC", "bad-op")]
